@@ -61,6 +61,8 @@ def binop(I, op, a, b):
         I.oblige(f"not_None@{I.cur_line}", b.present, "safety")
         b = b.value
     ty = type(op)
+    if isinstance(a, Opaque) or isinstance(b, Opaque):
+        return Opaque("arith")
     conc = (bool, int, float, str, list, tuple)
     if isinstance(a, conc) and isinstance(b, conc):
         if ty in (ast.Div, ast.FloorDiv, ast.Mod) and b == 0:
@@ -400,6 +402,9 @@ def getitem(I, base, key):
                 return Cell("arr", seq_slice(val, lo, hi), view_of=base)
             if isinstance(key, SymSeq):
                 return Cell("arr", seq_take(I, val, key))
+            if isinstance(key, tuple) and len(key) == 2 and \
+                    val.elem.startswith("Sort("):
+                return tbl_getitem(I, base, val, key)
             if key is None or isinstance(key, tuple):
                 raise Unsupported("multi-dimensional subscript")
             i = norm_index(I, key, val.length)
@@ -1685,3 +1690,122 @@ def _spec_isnan(I, x):
 @lib("spec.isfinite")
 def _spec_isfinite(I, x):
     return _isfinite(I, x)
+
+
+# ----------------------------------------------------- more numpy / stdlib
+@lib("numpy.cumsum")
+def _cumsum(I, x, **kw):
+    x = _val(x)
+    if not isinstance(x, SymSeq):
+        raise Unsupported("cumsum of non-seq")
+    srt = z3.RealSort() if x.elem == "Real" else z3.IntSort()
+    f = z3.Function(I.namer.fresh("cumsum"), z3.IntSort(), srt)
+    n = to_int(x.length)
+    k = z3.Int(I.namer.fresh("q_k"))
+    I.assume(z3.Implies(n > 0, f(0) == x.get(0)))
+    I.assume(z3.ForAll([k], z3.Implies(z3.And(1 <= k, k < n),
+                                       f(k) == f(k - 1) + x.get(k))))
+    return Cell("arr", SymSeq(x.length, lambda i: f(to_int(i)), x.elem))
+
+
+def seq_sum(I, x):
+    """sum of a sequence: uninterpreted SUM over (a fresh name per array
+    value) -- only equalities between sums of the *same* array are usable."""
+    srt = z3.RealSort() if x.elem != "Int" else z3.IntSort()
+    return I.fresh_const("sum", srt)
+
+
+@method("seq", "sum")
+def _seq_sum_m(I, b, **kw):
+    return seq_sum(I, _val(b))
+
+
+@lib("numpy.sum")
+def _np_sum(I, x, **kw):
+    return seq_sum(I, as_seq(I, x))
+
+
+@lib("os.path.join")
+def _os_path_join(I, *parts):
+    if all(isinstance(p, str) for p in parts):
+        import os
+        return os.path.join(*parts)
+    return Opaque("path")
+
+
+@lib("os.makedirs")
+def _os_makedirs(I, *a, **k):
+    return None
+
+
+@lib("numpy.asarray", "numpy.array", "numpy.atleast_1d")
+def _np_asarray(I, x, **kw):
+    if isinstance(x, Cell) and x.kind == "arr":
+        return x
+    if isinstance(x, Cell) and x.kind == "list":
+        v = x.read()
+        return Cell("arr", v)
+    if isinstance(x, (SymSeq, SymStruct)):
+        return Cell("arr", x)
+    if isinstance(x, list) and all(_scalar(v) for v in x):
+        items = list(x)
+        elem = "Real" if any(_elem_of(v) == "Real" for v in items) else \
+            ("Int" if items else "Real")
+
+        def get(i, items=items, elem=elem):
+            if isinstance(i, int):
+                return _coerce_elem(items[i], elem)
+            out = _coerce_elem(items[-1], elem) if items else None
+            for j in range(len(items) - 2, -1, -1):
+                out = z3.If(to_int(i) == j, _coerce_elem(items[j], elem),
+                            out)
+            return out
+        return Cell("arr", SymSeq(len(items), get, elem))
+    if _scalar(x):
+        return x
+    raise Unsupported(f"np.asarray of {x!r}")
+
+
+
+# ------------------------------------------------------------ 2-D tables
+# A `Tbl(R)` is a sequence of abstract rows of sort R; column j of row r is
+# the uninterpreted COL_R(r, j).
+def tbl_col(row, j):
+    f = z3.Function("COL", row.sort(), z3.IntSort(), z3.RealSort())
+    return f(row, to_int(j))
+
+
+def _full(sl):
+    return isinstance(sl, slice) and sl.start is None and sl.stop is None \
+        and sl.step is None
+
+
+def tbl_getitem(I, base, val, key):
+    r, c = key
+    if isinstance(r, slice):
+        lo, hi = slice_bounds(I, r, val.length)
+        rows = seq_slice(val, lo, hi)
+        if _full(c):
+            return Cell("arr", rows, view_of=base if isinstance(base, Cell)
+                        else None)
+        if isinstance(c, slice):
+            raise Unsupported("column slice of a table")
+        return Cell("arr", SymSeq(rows.length,
+                                  lambda i: tbl_col(rows.get(i), c), "Real"))
+    i = norm_index(I, r, val.length)
+    if _full(c):
+        raise Unsupported("row of a table as a vector")
+    return tbl_col(val.get(i), c)
+
+
+@lib("scipy.special.logsumexp")
+def _logsumexp(I, a, **kw):
+    a = _val(a)
+    if kw:
+        raise Unsupported("logsumexp with keyword arguments")
+    return I.fresh_const("logsumexp", z3.RealSort())
+
+
+@lib("datetime.datetime.now", "time.time")
+def _now(I, *a, **k):
+    return Opaque("time")
